@@ -31,19 +31,19 @@ func IsBoundaryCase(lines []string) bool {
 }
 
 type boundaryBlock struct {
-	start    int
-	clock    string
-	backend  string
-	keys     []string
-	pre      map[string]string
-	post     map[string]string
-	preQ     string
-	postQ    string
-	pfx      string
-	op       []string
-	opOut    string
-	opIdx    int
-	after    bool
+	start   int
+	clock   string
+	backend string
+	keys    []string
+	pre     map[string]string
+	post    map[string]string
+	preQ    string
+	postQ   string
+	pfx     string
+	op      []string
+	opOut   string
+	opIdx   int
+	after   bool
 }
 
 // BoundaryStats counts judged / skipped blocks (evidence).
